@@ -1,4 +1,4 @@
-(* Text/Example.v -- model of `file::expand_macro(s)` (src/file.rs:94-165) over a list of top-level items,
+(* Text/Example.v -- model of `file::expand_macro(s)` (src/file.rs, with the fixes dup-attr and late-import applied) over a list of top-level items,
    and of the file-system footprint of `write::example_show` (src/write.rs:18-135).
 
    A source file is a list of items
@@ -53,13 +53,18 @@ Definition next (u ue : um) (it : item) : um * um :=
   | _ => (u, ue)
   end.
 
+(* for attr in &attrs.clone() { if is(attr) { .. code; if first { code.insert(0, impl); first = false }; push(code) } } *)
+Fixpoint emit (mac : string) (first : bool) (stripped : list attr) (b : B) (l : list attr) : list (list item) :=
+  match l with
+  | [] => []
+  | a :: r => ((if first then [IImpl stripped b] else []) ++ gen mac (a_args a) stripped b) :: emit mac false stripped b r
+  end.
+
 (* what one iteration of the `for item in &mut file.items` loop pushes onto `new_items_file` *)
 Definition pushed (mac : string) (u ue : um) (it0 : item) : list (list item) :=
   match exclude_self ue it0 with
   | IImpl attrs b =>
-      if existsb (fun a => is_mac u (a_path a)) attrs then
-        (* for attr in &attrs.clone() { if is(attr) { attrs = exclude(attrs); code.insert(0, impl); push(code) } } *)
-        map (fun a => IImpl (exclude u attrs) b :: gen mac (a_args a) (exclude u attrs) b) (macro_attrs u attrs)
+      if existsb (fun a => is_mac u (a_path a)) attrs then emit mac true (exclude u attrs) b (macro_attrs u attrs)
       else [[IImpl attrs b]]
   | IUse attrs t =>
       match update u t with
@@ -74,9 +79,16 @@ Definition step (mac : string) (s : um * um * list (list item)) (it : item) : um
   | (u, ue, acc) => let '(u', ue') := next u ue it in (u', ue', acc ++ pushed mac u ue it)
   end.
 
-(* file::expand_macro: the loop, then `new_items_file.into_iter().flatten()` *)
+(* the `use` items of a file *)
+Definition uses_of (file : list item) : list utree := flat_map (fun it => match it with IUse _ t => [t] | _ => [] end) file.
+
+(* `for item in &file.items { if let Item::Use(u) = item { use_macro.update(u.clone()) } }`: imports may follow the impl *)
+Definition prescan (mac : string) (file : list item) : um :=
+  fold_left (fun u it => match it with IUse _ t => fst (update u t) | _ => u end) file (um_new mac).
+
+(* file::expand_macro: the pre-scan, the loop, then `new_items_file.into_iter().flatten()` *)
 Definition expand_macro (mac : string) (file : list item) : list item :=
-  List.concat (snd (fold_left (step mac) file (um_new mac, um_new EXAMPLE, []))).
+  List.concat (snd (fold_left (step mac) file (prescan mac file, um_new EXAMPLE, []))).
 
 (* file::expand_macros *)
 Definition expand_macros (macs : list string) (file : list item) : list item :=
@@ -107,64 +119,43 @@ Fixpoint spec_from (mac : string) (u ue : um) (file : list item) : list item :=
   | it :: rest => spec_item mac u ue it ++ (let '(u', ue') := next u ue it in spec_from mac u' ue' rest)
   end.
 
-Definition spec (mac : string) (file : list item) : list item := spec_from mac (um_new mac) (um_new EXAMPLE) file.
+Definition spec (mac : string) (file : list item) : list item := spec_from mac (prescan mac file) (um_new EXAMPLE) file.
 
-(* guard: no impl carries two attributes that denote the macro being expanded (state-exact, decidable) *)
-Definition dup_item (u ue : um) (it0 : item) : bool :=
-  match exclude_self ue it0 with
-  | IImpl attrs _ => negb (Nat.leb (List.length (macro_attrs u attrs)) 1)
-  | _ => false
-  end.
+Lemma emit_false : forall mac st b l, List.concat (emit mac false st b l) = flat_map (fun a => gen mac (a_args a) st b) l.
+Proof. induction l as [|a r IH]; simpl; auto. rewrite IH. reflexivity. Qed.
 
-Fixpoint dup_from (u ue : um) (file : list item) : bool :=
-  match file with
-  | [] => false
-  | it :: rest => dup_item u ue it || (let '(u', ue') := next u ue it in dup_from u' ue' rest)
-  end.
-
-Definition dup_attr (mac : string) (file : list item) : bool := dup_from (um_new mac) (um_new EXAMPLE) file.
-
-Lemma pushed_spec : forall mac u ue it, dup_item u ue it = false -> List.concat (pushed mac u ue it) = spec_item mac u ue it.
+Lemma pushed_spec : forall mac u ue it, List.concat (pushed mac u ue it) = spec_item mac u ue it.
 Proof.
-  intros mac u ue it D. unfold pushed, spec_item, dup_item in *.
+  intros mac u ue it. unfold pushed, spec_item.
   destruct (exclude_self ue it) as [attrs b | attrs t | attrs x | x]; simpl; auto.
   - destruct (existsb (fun a => is_mac u (a_path a)) attrs) eqn:E; simpl; auto.
-    apply negb_false_iff in D. apply Nat.leb_le in D.
-    destruct (macro_attrs u attrs) as [|a [|a' r]] eqn:M; simpl in *.
+    destruct (macro_attrs u attrs) as [|a r] eqn:M; simpl.
     + exfalso. apply existsb_exists in E. destruct E as (a & I & Ha).
       assert (In a (macro_attrs u attrs)) by (apply filter_In; auto). rewrite M in H. exact H.
-    + rewrite !app_nil_r. reflexivity.
-    + lia.
+    + rewrite emit_false. reflexivity.
   - destruct (update u t) as [u' [t1|]]; simpl; auto.
     destruct (update ue t1) as [ue' [t2|]]; simpl; auto.
 Qed.
 
 Lemma fold_step : forall mac file u ue acc,
-  dup_from u ue file = false ->
   List.concat (snd (fold_left (step mac) file (u, ue, acc))) = List.concat acc ++ spec_from mac u ue file.
 Proof.
-  induction file as [|it rest IH]; intros u ue acc D; simpl.
+  induction file as [|it rest IH]; intros u ue acc; simpl.
   - rewrite app_nil_r. reflexivity.
-  - simpl in D. apply orb_false_iff in D. destruct D as [D1 D2].
-    destruct (next u ue it) as [u' ue'] eqn:N. rewrite IH; auto.
-    rewrite concat_app, (pushed_spec mac u ue it D1), app_assoc. reflexivity.
+  - destruct (next u ue it) as [u' ue'] eqn:N. rewrite IH.
+    rewrite concat_app, (pushed_spec mac u ue it), app_assoc. reflexivity.
 Qed.
 
-(* FULL-STRENGTH STATEMENT (false: two_attrs_refuted below, finding F12):
-     forall mac file, expand_macro mac file = spec mac file                                   *)
-Theorem expand_macro_shape : forall mac file, dup_attr mac file = false -> expand_macro mac file = spec mac file.
-Proof. intros mac file D. unfold expand_macro, spec. rewrite fold_step; auto. Qed.
+(* no guard any more: an impl with several attributes of the macro is emitted once, followed by the code of each *)
+Theorem expand_macro_shape : forall mac file, expand_macro mac file = spec mac file.
+Proof. intros mac file. unfold expand_macro, spec. rewrite fold_step. reflexivity. Qed.
 
 (* several passes (expand(actor, family)): each pass is the specification applied to the previous result *)
-Fixpoint dup_all (macs : list string) (file : list item) : bool :=
-  match macs with [] => false | m :: ms => dup_attr m file || dup_all ms (spec m file) end.
-
-Theorem expand_macros_shape : forall macs file, dup_all macs file = false ->
+Theorem expand_macros_shape : forall macs file,
   expand_macros macs file = fold_left (fun f m => spec m f) macs file.
 Proof.
-  induction macs as [|m ms IH]; intros file D; simpl; auto.
-  simpl in D. apply orb_false_iff in D. destruct D as [D1 D2].
-  unfold expand_macros in *. simpl. rewrite expand_macro_shape; auto.
+  induction macs as [|m ms IH]; intros file; simpl; auto.
+  unfold expand_macros in *. simpl. rewrite expand_macro_shape. apply IH.
 Qed.
 
 (* ---- consequences of the shape, item by item -------------------------------------------------- *)
@@ -207,6 +198,78 @@ Proof.
   destruct (is_mac u (a_path a)) eqn:E; simpl; auto. rewrite E. simpl. rewrite IH. reflexivity.
 Qed.
 
+(* ---- recognition does not depend on the position in the file ------------------------------------- *)
+
+Lemma uses_of_use : forall a t r, uses_of (IUse a t :: r) = t :: uses_of r.
+Proof. reflexivity. Qed.
+Lemma uses_of_impl : forall a b r, uses_of (IImpl a b :: r) = uses_of r.
+Proof. reflexivity. Qed.
+Lemma uses_of_other : forall a x r, uses_of (IOther a x :: r) = uses_of r.
+Proof. reflexivity. Qed.
+Lemma uses_of_verb : forall x r, uses_of (IVerb x :: r) = uses_of r.
+Proof. reflexivity. Qed.
+
+Lemma prescan_gen : forall mac file u, um_mac u = mac ->
+  fold_left (fun u it => match it with IUse _ t => fst (update u t) | _ => u end) file u =
+  {| um_mac := mac; um_imp := um_imp u ++ flat_map (upd_names mac) (uses_of file) |}.
+Proof.
+  intros mac file. induction file as [|it r IH]; intros u M.
+  - simpl. rewrite app_nil_r. destruct u; simpl in *; subst; reflexivity.
+  - destruct it as [a b | a t | a x | x]; cbn [fold_left].
+    + rewrite uses_of_impl. apply IH; exact M.
+    + rewrite uses_of_use, IH by (rewrite update_eq; simpl; exact M). rewrite update_eq. cbn [fst um_imp flat_map]. rewrite M, app_assoc. reflexivity.
+    + rewrite uses_of_other. apply IH; exact M.
+    + rewrite uses_of_verb. apply IH; exact M.
+Qed.
+
+Lemma prescan_track : forall mac file, prescan mac file = track mac (uses_of file).
+Proof. intros. unfold prescan, track. rewrite (prescan_gen mac) by reflexivity. rewrite track_gen. reflexivity. Qed.
+
+Lemma next_state : forall mac f1 u ue, um_mac u = mac ->
+  fst (fold_left (fun s it => next (fst s) (snd s) it) f1 (u, ue)) =
+  {| um_mac := mac; um_imp := um_imp u ++ flat_map (upd_names mac) (uses_of f1) |}.
+Proof.
+  intros mac f1. induction f1 as [|it r IH]; intros u ue M.
+  - simpl. rewrite app_nil_r. destruct u; simpl in *; subst; reflexivity.
+  - destruct it as [a b | a t | a x | x]; cbn [fold_left next fst snd].
+    + rewrite uses_of_impl. apply IH; exact M.
+    + rewrite uses_of_use, update_eq. destruct (snd (fsu (um_mac u) t)); rewrite IH by exact M;
+        cbn [um_imp flat_map]; rewrite M, app_assoc; reflexivity.
+    + rewrite uses_of_other. apply IH; exact M.
+    + rewrite uses_of_verb. apply IH; exact M.
+Qed.
+
+Lemma is_mac_incl : forall mac a b p, incl b a ->
+  is_mac {| um_mac := mac; um_imp := a ++ b |} p = is_mac {| um_mac := mac; um_imp := a |} p.
+Proof.
+  intros mac a b p I. unfold is_mac. cbn [um_mac um_imp]. destruct (lead p); auto. f_equal. rewrite existsb_app.
+  set (f := fun n => list_eqb [n] (segs p)).
+  destruct (existsb f b) eqn:E; [|apply orb_false_r].
+  rewrite (existsb_seteq f b a I E). reflexivity.
+Qed.
+
+(* at every point of the pass the macro is recognised exactly as after ALL the `use` items of the file,
+   those that follow included *)
+Theorem state_constant : forall mac f1 f2 ue p,
+  let u := fst (fold_left (fun s it => next (fst s) (snd s) it) f1 (prescan mac (f1 ++ f2), ue)) in
+  is_mac u p = is_mac (track mac (uses_of (f1 ++ f2))) p.
+Proof.
+  intros mac f1 f2 ue p. simpl. rewrite prescan_track. rewrite (next_state mac) by apply track_all.
+  destruct (track_all mac (uses_of (f1 ++ f2))) as [M _].
+  assert (T : track mac (uses_of (f1 ++ f2)) = {| um_mac := mac; um_imp := um_imp (track mac (uses_of (f1 ++ f2))) |})
+    by (destruct (track mac (uses_of (f1 ++ f2))); simpl in *; subst; reflexivity).
+  rewrite T at 2. apply is_mac_incl.
+  unfold track. rewrite track_gen. simpl. unfold uses_of. rewrite flat_map_app', flat_map_app'.
+  intros n I. apply in_or_app. left. exact I.
+Qed.
+
+(* hence: an attribute path that denotes the macro w.r.t. all the `use` items of the file is recognised wherever the
+   impl stands, crate-alias paths excepted *)
+Corollary denoted_is_recognised : forall mac f1 f2 ue p,
+  alias_path p = false -> denotes mac (uses_of (f1 ++ f2)) p = true ->
+  is_mac (fst (fold_left (fun s it => next (fst s) (snd s) it) f1 (prescan mac (f1 ++ f2), ue))) p = true.
+Proof. intros. rewrite state_constant. apply is_complete_guarded; assumption. Qed.
+
 End Example.
 
 Arguments IImpl {A B X}.
@@ -236,16 +299,48 @@ Fixpoint count_impl (b : string) (l : list titem) : nat :=
   | _ :: r => count_impl b r
   end.
 
-(* F12: #[interthread::actor(name="X")] #[interthread::actor(name="Y")] impl B  =>  the impl is emitted twice *)
-Lemma two_attrs_refuted : exists file : list titem,
-  dup_attr _ _ _ "actor" file = true /\ count_impl "B" file = 1 /\
-  count_impl "B" (t_spec ["actor"] file) = 1 /\ count_impl "B" (t_expand ["actor"] file) = 2.
+Definition has_annotated (file : list titem) (p : apath) : bool :=
+  existsb (fun it => match it with IImpl attrs _ => existsb (fun a => list_eqb (segs (a_path a)) (segs p) && Bool.eqb (lead (a_path a)) (lead p)) attrs | _ => false end) file.
+
+Definition all_uses (file : list titem) : list utree := uses_of _ _ _ file.
+
+(* the former witnesses of F12 and of the import-tracking defects, now expanded as the property demands *)
+
+(* #[interthread::actor(..a1)] #[interthread::actor(..a2)] impl B : the impl once, then both expansions *)
+Example two_attrs_fixed :
+  t_expand ["actor"] [IImpl [at_ false ["interthread"; "actor"] "a1"; at_ false ["interthread"; "actor"] "a2"] "B"]
+  = [IImpl [] "B"; IVerb "gen:actor:a1:B"; IVerb "gen:actor:a2:B"].
+Proof. vm_compute. reflexivity. Qed.
+
+(* use interthread::*; #[actor] impl A  #[family] impl B  with expand(actor, family): both expanded, the glob stays *)
+Example glob_both_fixed :
+  t_expand ["actor"; "family"] [IUse [] (UPath "interthread" UGlob); IImpl [at_ false ["actor"] "a1"] "A"; IImpl [at_ false ["family"] "f1"] "B"]
+  = [IUse [] (UPath "interthread" UGlob); IImpl [] "A"; IVerb "gen:actor:a1:A"; IImpl [] "B"; IVerb "gen:family:f1:B"].
+Proof. vm_compute. reflexivity. Qed.
+
+(* #[actor] impl A  use interthread::actor;  : expanded although the import follows *)
+Example late_import_fixed :
+  t_expand ["actor"] [IImpl [at_ false ["actor"] "a1"] "A"; IUse [] (UPath "interthread" (UName "actor"))]
+  = [IImpl [] "A"; IVerb "gen:actor:a1:A"].
+Proof. vm_compute. reflexivity. Qed.
+
+(* use interthread::actor; use interthread::{actor as act, actor as act2};  #[actor] #[::interthread::actor] on A, #[act2] on B *)
+Example reimport_abs_fixed :
+  t_expand ["actor"] [IUse [] (UPath "interthread" (UName "actor")); IUse [] (UPath "interthread" (UGroup [URename "actor" "act"; URename "actor" "act2"]));
+                      IImpl [at_ false ["actor"] "a1"; at_ true ["interthread"; "actor"] "a2"] "A"; IImpl [at_ false ["act2"] "a3"] "B"]
+  = [IImpl [] "A"; IVerb "gen:actor:a1:A"; IVerb "gen:actor:a2:A"; IImpl [] "B"; IVerb "gen:actor:a3:B"].
+Proof. vm_compute. reflexivity. Qed.
+
+(* still open: use interthread as it; #[it::actor] impl C  is copied unexpanded *)
+Lemma crate_alias_file_refuted : exists file : list titem, exists p,
+  denotes "actor" (all_uses file) p = true /\ alias_path p = true /\ has_annotated file p = true /\
+  has_annotated (t_expand ["actor"] file) p = true.
 Proof.
-  exists [IImpl [at_ false ["interthread"; "actor"] "a1"; at_ false ["interthread"; "actor"] "a2"] "B"].
+  exists [IUse [] (URename "interthread" "it"); IImpl [at_ false ["it"; "actor"] "a1"] "C"]. exists (ap false ["it"; "actor"]).
   vm_compute. auto.
 Qed.
 
-(* the guard is satisfiable on a non-trivial file: actor and family on one impl, imported through a group with an alias *)
+(* actor and family on one impl, imported through a group with an alias *)
 Example shape_example :
   let file : list titem :=
     [ IUse [] (UPath "std" (UName "fmt"));
@@ -253,7 +348,6 @@ Example shape_example :
       IOther [at_ false ["example"] "e"; at_ false ["derive"] "d"] "struct S";
       IImpl [at_ false ["act"] "a1"; at_ false ["allow"] "x"; at_ false ["family"] "f1"] "S";
       IOther [] "fn tail" ] in
-  dup_all _ _ _ tgen ["actor"; "family"] file = false /\
   t_expand ["actor"; "family"] file =
     [ IUse [] (UPath "std" (UName "fmt"));
       IOther [at_ false ["derive"] "d"] "struct S";
@@ -261,34 +355,7 @@ Example shape_example :
       IVerb "gen:family:f1:S";
       IVerb "gen:actor:a1:S";
       IOther [] "fn tail" ].
-Proof. vm_compute. auto. Qed.
-
-(* ---- file-level findings of the import tracking (state is per pass, single slot, in file order) -------- *)
-
-Definition has_annotated (file : list titem) (p : apath) : bool :=
-  existsb (fun it => match it with IImpl attrs _ => existsb (fun a => list_eqb (segs (a_path a)) (segs p) && Bool.eqb (lead (a_path a)) (lead p)) attrs | _ => false end) file.
-
-Definition all_uses (file : list titem) : list utree := flat_map (fun it => match it with IUse _ t => [t] | _ => [] end) file.
-
-(* `use interthread::*;` with both macros in the file: the first pass removes the glob, the second pass
-   no longer recognises #[family]; the attribute stays and its import is gone *)
-Lemma glob_both_refuted : exists file : list titem, exists p,
-  denotes "family" (all_uses file) p = true /\ has_annotated file p = true /\
-  dup_all _ _ _ tgen ["actor"; "family"] file = false /\
-  has_annotated (t_expand ["actor"; "family"] file) p = true /\ all_uses (t_expand ["actor"; "family"] file) = [].
-Proof.
-  exists [IUse [] (UPath "interthread" UGlob); IImpl [at_ false ["actor"] "a1"] "A"; IImpl [at_ false ["family"] "f1"] "B"].
-  exists (ap false ["family"]). vm_compute. auto 6.
-Qed.
-
-(* a `use` item after the annotated impl (legal Rust): not recognised, and the import is removed *)
-Lemma late_import_refuted : exists file : list titem, exists p,
-  denotes "actor" (all_uses file) p = true /\ has_annotated file p = true /\
-  has_annotated (t_expand ["actor"] file) p = true /\ all_uses (t_expand ["actor"] file) = [].
-Proof.
-  exists [IImpl [at_ false ["actor"] "a1"] "A"; IUse [] (UPath "interthread" (UName "actor"))].
-  exists (ap false ["actor"]). vm_compute. auto 6.
-Qed.
+Proof. vm_compute. reflexivity. Qed.
 
 (* printing of a tagged file, for the correspondence with the real example file *)
 Definition show_apath (p : apath) : string := ((if lead p then "::" else "") ++ String.concat "::" (segs p))%string.
